@@ -176,7 +176,7 @@ class Models:
             if rec['witness'] is None: rec['witness'] = 'condition is constant true on a feasible path'
             return None
         neg = z3.BoolVal(True) if isinstance(c, int) else z3.Not(c)
-        r, m = e.check(st, neg, want_model=True)
+        r, m = e.check(st, neg, want_model=True, important=True)
         if r == 'unsat':
             rec['proved'] += 1
             if rec['witness'] is None:
